@@ -147,7 +147,10 @@ def gen_signature(rng: Any) -> dict[str, Any]:
         inj[0]["as_string"] = True
     return {"pos": pos, "var_args": rng.random() < 0.3, "kwonly": [f"k{i}" for i in range(rng.randint(0, 2))], "var_kw": rng.random() < 0.3,
             "inj": inj, "is_async": rng.random() < 0.5, "local_classes": local_classes, "future_annotations": rng.random() < 0.3,
-            "stacked": (not local_classes) and rng.random() < 0.15}
+            "stacked": (not local_classes) and rng.random() < 0.15,
+            # (a stacked *asynchronous* wrapper may wrap a plain function - as @context_teardown wraps an async generator function: what
+            # @inject decorates is the coroutine function on top)
+            "stacked_over_plain": rng.random() < 0.5}
 
 
 def build_source(sig: dict[str, Any]) -> str:
@@ -197,11 +200,15 @@ def build_source(sig: dict[str, Any]) -> str:
         # @inject on top of another decorator that uses functools.wraps: the wrapper itself takes (*args, **kwargs); the
         # markers and annotations are those of the function it wraps
         lines.append("import functools")
-        lines.append(head.replace(" target(", " _inner("))
+        over_plain = sig["is_async"] and sig.get("stacked_over_plain")
+        lines.append((head.replace("async def", "def", 1) if over_plain else head).replace(" target(", " _inner("))
         lines.extend(body)
         lines.append("@inject")
         lines.append("@functools.wraps(_inner)")
-        if sig["is_async"]:
+        if over_plain:
+            lines.append("async def target(*args, **kwargs):")
+            lines.append("    return _inner(*args, **kwargs)")
+        elif sig["is_async"]:
             lines.append("async def target(*args, **kwargs):")
             lines.append("    return await _inner(*args, **kwargs)")
         else:
@@ -648,6 +655,8 @@ async def scenario(case: dict[str, Any], out: dict[str, Any]) -> None:
         inc("local_classes")
     if sig.get("stacked"):
         inc("inject_stacked_over_a_wraps_decorator")
+        if sig["is_async"] and sig.get("stacked_over_plain"):
+            inc("inject_on_a_coroutine_function_that_wraps_a_plain_function")
 
 
 def rejection_matrix(out: dict[str, Any]) -> None:
